@@ -202,6 +202,7 @@ class LoopSem:
             old = self.env.get(name)
             self.env[name] = new if (pc == T or old is None) else f_ite(pc, new, old)
         elif self.on_assign is not None:
+            self.pc = f_and(pc, self.alive)           # condition under which this assignment executes (for the caller)
             self.on_assign(name, rhs, op, self)
 
     def run(self):
